@@ -254,6 +254,25 @@ func hllCase(c *Ctx, m uint64, redis bool) {
 		countsA[fi] = v
 		c.emit("hll.count %d %s %d %d %d", m, natList(regsA), b2i(fl[0]), b2i(fl[1]), v)
 	}
+	if mu, ok := A.(*hllMulti); ok {
+		// the creating handle and a handle attached now describe one sketch: same parameters,
+		// same derived constants (bit for bit), same registers, same estimates
+		if h2, err := gostatix.NewHyperLogLogRedisFromKey(mu.hs[0].h.MetadataKey()); err == nil && h2 != nil {
+			d1, e1 := parseHLL(mu.hs[0].Export())
+			d2, e2 := parseHLL(h2.Export())
+			if e1 != nil || e2 != nil || d1.NR != d2.NR || d1.NBP != d2.NBP || f64bits(d1.C) != f64bits(d2.C) || hexStr(d1.R) != hexStr(d2.R) {
+				c.fail([]string{"C06", "C09", "C05"}, "hll-handles-disagree", fmt.Sprintf("%s: the creating handle exports (m=%d, bits=%d, bias=%v), a handle attached from the metadata key (m=%d, bits=%d, bias=%v) (%v %v)", cfg, d1.NR, d1.NBP, d1.C, d2.NR, d2.NBP, d2.C, e1, e2), replay)
+				return
+			}
+			for fi, fl := range hllFlags() {
+				if v, err := h2.Count(fl[0], fl[1]); err != nil || v != countsA[fi] {
+					c.fail([]string{"C06", "C09", "C05"}, "hll-handles-disagree", fmt.Sprintf("%s: Count%v through an attached handle gives %d (%v), %d through the others", cfg, fl, v, err, countsA[fi]), replay)
+					return
+				}
+			}
+			c.branch("attached-handle-compared")
+		}
+	}
 	// permutation of the distinct elements, no duplicates
 	var distinct []int
 	for j := range seen {
